@@ -606,6 +606,128 @@ def _ptr_lin(node, lin_of):
     return lin_of(n)
 
 
+class _IndexForm:
+    """A block loop written with a block index: `for (i = 0; i < L / w; ++i) load(base + w * i)`.  With q = L / w (or L >> log2 w) the integers
+    satisfy L = w*q + r, 0 <= r < w, so block i < q reads [w*i, w*i + w) inside [0, w*q) which lies in [0, L), and a tail that starts at base + w*q
+    and reads r = L % w = L & (w-1) = L - w*q bytes ends exactly at L.  The rule recognises q and r in any of these spellings (through locals) and
+    checks the linear forms of the load addresses and of the tail start."""
+
+    def __init__(self, d, fn, loop):
+        from .. import norm, fstring as fs
+        from ..linear import Lin
+        self.ok = False
+        self.why = ""
+        self.d, self.fn = d, fn
+        self.loc = {k_: norm.deep_uncast(v_) for k_, v_ in fs.local_sx(fn).items()}
+        cond, parts, body = norm.loop_parts(loop)
+        c = norm.norm_cmp(ir.sx(cond), lambda x: x[0] == "ref") if cond is not None else None
+        if c is None or c[0] not in ("<", "!="):
+            self.why = "the loop condition is not `i < B` / `i != B`"
+            return
+        self.i = c[1][1]
+        # i starts at 0 and moves by +1
+        init = None
+        raw = loop.get("inner", [])
+        if loop.get("kind") == "ForStmt" and isinstance(raw[0], dict) and raw[0].get("kind"):
+            for v in ir.kids(raw[0]):
+                if v.get("kind") == "VarDecl" and v.get("name") == self.i and ir.ekids(v):
+                    init = trange.interval(ir.ekids(v)[-1])
+        if init is None and self.i in self.loc:
+            init = (norm.int_of(self.loc[self.i]),) * 2 if norm.int_of(self.loc[self.i]) is not None else None
+        step = norm.sym_step(parts).get(self.i)
+        if init != (0, 0) or step is None or (step - Lin({self.i: 1})) != Lin({"": 1}):
+            self.why = "the block index does not run 0, 1, 2, ..."
+            return
+        B = self.expand(c[2])
+        self.w = None
+        if B[0] == "bin" and B[1] == "/" and norm.int_of(B[3]) and norm.int_of(B[3]) > 0:
+            self.w, self.L = norm.int_of(B[3]), B[2]
+        elif B[0] == "bin" and B[1] == ">>" and norm.int_of(B[3]) is not None:
+            self.w, self.L = 1 << norm.int_of(B[3]), B[2]
+        if self.w is None:
+            self.why = "the bound `%s` is not length / w or length >> k" % ir.show(B)[:40]
+            return
+        self.B = B
+        # the loads: base + w*i, w bytes
+        self.base = None
+        for ln, src, size in _loads_in(d, loop):
+            l_ = self.lin(ir.sx(src))
+            if l_ is None or size != self.w or l_.get("i:" + self.i) != self.w or l_.get("", 0) != 0:
+                self.why = "a block load is not %d bytes at base + %d * %s (`%s`)" % (self.w, self.w, self.i, d.text(src)[:40])
+                return
+            rest = [k_ for k_ in l_ if k_ not in ("", "i:" + self.i)]
+            if len(rest) != 1 or l_[rest[0]] != 1 or (self.base is not None and self.base != rest[0]):
+                self.why = "block loads through different bases"
+                return
+            self.base = rest[0]
+        if self.base is None:
+            self.why = "no block load in the loop"
+            return
+        self.ok = True
+
+    def expand(self, t, depth=0):
+        from .. import norm
+        t = norm.deep_uncast(t)
+        if depth > 8 or not isinstance(t, tuple):
+            return t
+        if t[0] == "ref" and t[1] in self.loc and t[1] != getattr(self, "i", None):
+            return self.expand(self.loc[t[1]], depth + 1)
+        return tuple(self.expand(x, depth + 1) if isinstance(x, tuple) else x for x in t)
+
+    def lin(self, t):
+        """linear form over pointer bases ("p:name"), the block index ("i:name"), q and L; products with literals"""
+        from .. import norm
+        from ..linear import Lin
+        t = self.expand(t)
+        if getattr(self, "B", None) is not None and t == self.B:
+            return Lin({"q": 1})
+        if getattr(self, "L", None) is not None and t == self.L:
+            return Lin({"L": 1})
+        k = norm.int_of(t)
+        if k is not None:
+            return Lin({"": k}) if k else Lin()
+        if t[0] == "ref":
+            return Lin({("i:" if t[1] == self.i else "p:") + t[1]: 1})
+        if t[0] == "bin" and t[1] in ("+", "-"):
+            a, b = self.lin(t[2]), self.lin(t[3])
+            if a is None or b is None:
+                return None
+            return a + b if t[1] == "+" else a - b
+        if t[0] == "bin" and t[1] == "*":
+            for x, y in ((t[2], t[3]), (t[3], t[2])):
+                kx = norm.int_of(self.expand(x))
+                ly = self.lin(y)
+                if kx is not None and ly is not None:
+                    return Lin({k_: v_ * kx for k_, v_ in ly.items() if v_ * kx})
+        if t[0] == "bin" and t[1] == "<<" and norm.int_of(t[3]) is not None:
+            ly = self.lin(t[2])
+            if ly is not None:
+                return Lin({k_: v_ << norm.int_of(t[3]) for k_, v_ in ly.items()})
+        return None
+
+    def is_rem(self, t):
+        """t is the number of bytes behind the last full block: L % w, L & (w-1), L - w*q"""
+        from .. import norm
+        from ..linear import Lin
+        t = self.expand(t)
+        if t[0] == "bin" and t[1] == "%" and t[2] == self.L and norm.int_of(t[3]) == self.w:
+            return True
+        if t[0] == "bin" and t[1] == "&" and self.w & (self.w - 1) == 0:
+            for a, b in ((t[2], t[3]), (t[3], t[2])):
+                if a == self.L and norm.int_of(b) == self.w - 1:
+                    return True
+        l_ = self.lin(t)
+        return l_ is not None and l_ == Lin({"L": 1, "q": -self.w})
+
+    def is_end(self, t):
+        """t points just behind the last full block: base + w*q (or base + (L - r))"""
+        from ..linear import Lin
+        l_ = self.lin(t)
+        if l_ is None:
+            return False
+        return l_ == Lin({self.base: 1, "q": self.w})
+
+
 def rule_cursor(rep, d, fns):
     rep.rule("C14.cursor", "each read is covered by the remaining length: block loads of w bytes sit in a loop guarded by remaining >= w "
                            "(or by an end pointer computed with & ~(w-1)), the cursor and the remaining length advance by w, tail cases read "
@@ -635,8 +757,24 @@ def rule_cursor(rep, d, fns):
             for ln, src, size in _loads_in(d, x):
                 snaps.append((ln, _ptr_lin(src, lin_of), size))
         env = norm.sym_step(parts, on_part)
+        idxf = None
         if guard is None:
-            rep.inconclusive(R, "murmur2_x86_impl", "block loop", where=d.where(loop), detail="the loop is not guarded by `remaining >= <constant>` (an index-based loop needs a different argument)")
+            idxf = _IndexForm(d, fn, loop)
+        if guard is None and idxf is not None and idxf.ok:
+            # index form: blocks 0..q-1 with q = L / w lie inside [0, L); the tail starts at base + w*q
+            guard = idxf.w
+            tails = [v for s_ in top[li + 1:] for v in ([s_] + list(ir.walk_expr(s_))) if v.get("kind") == "VarDecl" and "*" in ir.qtype(v) and ir.ekids(v) and idxf.is_end(ir.sx(ir.ekids(v)[-1]))]
+            rep.holds(R, "murmur2_x86_impl", "block loop", where=d.where(loop),
+                      detail="index form: %d-byte loads at base + %d*%s for %s < length / %d" % (idxf.w, idxf.w, idxf.i, idxf.i, idxf.w))
+            if len(tails) == 1:
+                cursor = tails[0].get("name")
+                nvar = "@remainder"
+            else:
+                rep.inconclusive(R, "murmur2_x86_impl", "tail", where=where, detail="no single pointer to the end of the full blocks (base + w * (length / w)) found for the tail")
+                guard = None
+        elif guard is None:
+            rep.inconclusive(R, "murmur2_x86_impl", "block loop", where=d.where(loop), detail="the loop is not guarded by `remaining >= <constant>`%s" % (
+                (" and is not an index loop over length / w either: " + idxf.why) if idxf is not None else ""))
         elif not snaps or any(p_ is None or sz is None for _, p_, sz in snaps):
             rep.inconclusive(R, "murmur2_x86_impl", "block loop", where=d.where(loop), detail="block load address or size is not linear in the cursor")
         else:
@@ -700,10 +838,11 @@ def rule_cursor(rep, d, fns):
                     labels_seen = False
                     for st in steps:
                         if st[0] == "cond":
-                            c2 = norm.norm_cmp(ir.sx(st[1]), lambda x: x == ("ref", nvar))
+                            is_n = (lambda x: x == ("ref", nvar)) if idxf is None or not idxf.ok else (lambda x: idxf.is_rem(x))
+                            c2 = norm.norm_cmp(ir.sx(st[1]), is_n)
                             if c2 is None:
                                 t_ = norm.uncast(ir.sx(st[1]))
-                                if t_ == ("ref", nvar):
+                                if is_n(t_):
                                     truth = v != 0
                                 else:
                                     continue          # a condition on something else: both outcomes are followed
@@ -718,6 +857,16 @@ def rule_cursor(rep, d, fns):
                                 break
                         elif st[0] == "case":
                             sw = d.parent_of(d.parent_of(st[1])) if st[1] is not None else None
+                            if idxf is not None and idxf.ok:
+                                # the switch must be on the number of bytes behind the last full block
+                                swn = st[1]
+                                while swn is not None and swn.get("kind") != "SwitchStmt":
+                                    swn = d.parent_of(swn)
+                                if swn is None:
+                                    swn = next((x for s2 in rest for x in ([s2] + list(ir.walk_expr(s2))) if x.get("kind") == "SwitchStmt"), None)
+                                subj = [c_ for c_ in swn.get("inner", []) if isinstance(c_, dict) and c_.get("kind")][-2] if swn is not None else None
+                                if subj is None or not idxf.is_rem(ir.sx(subj)):
+                                    undecided = "the tail switch is not on length %% %d" % idxf.w
                             if st[1] is None:
                                 # no label taken: feasible only if no label equals v (decided below through the labelled paths)
                                 feas = v not in case_labels(rest, nvar)
@@ -801,9 +950,16 @@ def rule_cursor(rep, d, fns):
         pvars = {k_ for _, p_, _ in snaps if p_ is not None for k_ in p_ if k_ != ""}
         c = norm.norm_cmp(ir.sx(cond), lambda x: x[0] == "ref" and x[1] in pvars) if cond is not None else None
         ef = end_form(c[2]) if c is not None and c[0] == "!=" else None
+        idx8 = None
         if not snaps or any(p_ is None or sz is None for _, p_, sz in snaps) or len(pvars) != 1 or ef is None:
+            idx8 = _IndexForm(d, fn, loop)
+        if idx8 is not None and idx8.ok:
+            w = idx8.w
+            rep.holds(R, "murmur_hash<8>", "block loop", where=d.where(loop),
+                      detail="index form: %d-byte loads at base + %d*%s for %s < length / %d" % (idx8.w, idx8.w, idx8.i, idx8.i, idx8.w))
+        elif idx8 is not None:
             rep.inconclusive(R, "murmur_hash<8>", "block loop", where=d.where(loop),
-                             detail="not of the form `while (cursor != base + (length & ~(w-1)))` with linear block loads (an index-based loop needs a different argument)")
+                             detail="neither `while (cursor != base + (length & ~(w-1)))` with linear block loads nor an index loop over length / w: %s" % idx8.why)
         else:
             cursor = pvars.pop()
             base, w = ef
@@ -854,6 +1010,32 @@ def rule_cursor(rep, d, fns):
         t = ir.sx(call)
         a0, a1 = resolve(t[2]), t[3]
         cw = low_mask(a1)
+        ix_ = None
+        for _, lp_ in loops:
+            cand_ = _IndexForm(d, fn, lp_)
+            if cand_.ok:
+                ix_ = cand_
+        if ix_ is not None:
+            # index form: the tail is load_bytes(base + w*q, r) under r != 0, with r = L % w in any spelling
+            problems = []
+            if not ix_.is_rem(a1):
+                problems.append("load_bytes is asked for `%s` bytes, expected the %d-remainder of the length" % (ir.show(ix_.expand(a1))[:40], ix_.w))
+            guarded = False
+            p_ = d.parent_of(call)
+            while p_ is not None and p_ is not fn:
+                if p_.get("kind") == "IfStmt":
+                    ct = ir.sx(ir.ekids(p_)[0])
+                    c2 = norm.norm_cmp(ct, lambda x: ix_.is_rem(x))
+                    if (c2 is not None and ((c2[0] == "!=" and norm.int_of(c2[2]) == 0) or (c2[0] == ">" and norm.int_of(c2[2]) == 0) or (c2[0] == ">=" and norm.int_of(c2[2]) == 1))) or ix_.is_rem(ct):
+                        guarded = True
+                p_ = d.parent_of(p_)
+            if not guarded:
+                problems.append("the tail is not guarded by remainder != 0: load_bytes(p, 0) reads p[-1]")
+            if not ix_.is_end(t[2]):
+                problems.append("load_bytes starts at `%s`, not at base + %d * (length / %d)" % (ir.show(ix_.expand(t[2]))[:50], ix_.w, ix_.w))
+            (rep.violates if problems else rep.holds)(R, "murmur_hash<8>", "tail", where=d.where(call),
+                                                      detail="; ".join(problems) if problems else "load_bytes(base + %d*q, length %% %d) under a non-zero remainder" % (ix_.w, ix_.w))
+            return
         guard_w = None
         p_ = d.parent_of(call)
         while p_ is not None and p_ is not fn:
